@@ -100,6 +100,10 @@ func genNeg(r *Rng) Sx {
 	if len(produces) == 0 {
 		produces = []string{r.Pick(registered)}
 	}
+	if len(produces) > 1 && r.Pct(15) {
+		// a list that names a type twice (lists put together from several sources do): what counts is the first mention
+		produces = append(produces, produces[r.Intn(len(produces)-1)])
+	}
 	if r.Pct(15) {
 		produces = r.Shuffle(r.Subset(append([]string{"*/*", "text/html"}, negTypes...), 40))
 	}
